@@ -34,6 +34,16 @@ CHECKS["C11"] = dict(
     design_ref="DESIGN.md section 6, C11",
 )
 
+CHECKS["C18"] = dict(
+    category="other",
+    technique="table reading from MIR (const tables, match tables, dispatch switch) against a Type 2 oracle; call-graph SCC depth-guard rule; sibling agreement of visitor impls",
+    text=("Static decision of necessary structural clauses of Type 2 conformance: opcode constants, the three VisitOp tables "
+          "(mutual inverses, spec mnemonics), dispatch exhaustiveness incl. the escape switch and the try_into().unwrap() domain, "
+          "subroutine bias step function at all breakpoints, nesting/stack limits, bounded interpreter recursion on every cycle, and "
+          "visitor implementations without catch-all arms. Path arithmetic and operand-stack depth are not decided."),
+    design_ref="DESIGN.md section 6, C18",
+)
+
 NOT_APPLICABLE = {
     "C05": "every clause is a numeric relation between table contents and output values; the structural parts (termination, borrow and panic discipline, attachment index validation) are decided under C02; no GPOS-specific clause is visible in the shape of the code",
 }
